@@ -7,7 +7,8 @@ Scope Time timer advances by exactly the increment iff Running, and the tag valu
 clocks are zero whenever a new run id appears and never decrease while the run id stays.
 Tie half: real Engine vs model with clocks observed after every operation, incl. methods with blocks/watches so
 that several timers are live, varied increments (0, != tick-time advance, large), hold/pause heavy sessions.
-Oracle: the four clock tags of the implementation per tick against the System State at the clock update.
+Oracle: the four clock tags of the implementation per tick against the System State at the clock update, and
+against the run state itself (run flags, control-state message, operator command history) where the tag says Running.
 """
 from __future__ import annotations
 
@@ -62,9 +63,38 @@ def oracle(case: dict, recs: list[dict]) -> list[Failure]:
         out.append(Failure(key, {"method": case.get("method", ""), "ops": case["ops"][:i]},
                            f"op {i} {recs[i]['op']}: {msg}"))
 
+    # what the operator last commanded, independent of every engine attribute: paused from the tick that executes
+    # an accepted user Pause until an Unpause (user or method), Stop or Restart is requested or the run ends
+    # (not used in a run in which the method issued a timed Pause: its timer ends the pause by itself)
+    hist_paused = False
+    pause_requested = False
+    timed_seen = False
     for i in range(1, len(recs)):
         a, b = recs[i - 1], recs[i]
         op = b["op"]
+        hist_before = hist_paused
+        if op[0] == "user" and b["res"] == "ok":
+            if op[1] == "Pause":
+                pause_requested = True
+            elif op[1] in ("Unpause", "Stop", "Restart"):
+                hist_paused = pause_requested = False
+        elif op[0] == "tick":
+            timed_seen = timed_seen or any(x.startswith("m.pause:") for x in b.get("items", []))
+            if timed_seen or any(x.startswith(("m.unpause", "m.stop", "m.restart")) for x in b.get("items", [])):
+                hist_paused = pause_requested = False
+            elif pause_requested and a["started"] and b["started"] and a["run_id"] == b["run_id"]:
+                hist_paused, pause_requested = True, False
+        if timed_seen:
+            hist_paused = pause_requested = False
+        if not b["started"] or a["run_id"] != b["run_id"]:
+            hist_paused = pause_requested = timed_seen = False
+        # the run state (flags found by role, the control-state message, the command history) against the
+        # System State tag: a paused run reports Paused (Restarting while a Restart is under way)
+        paused_b = b["started"] and (b["paused"] or b["ctl"][2] or (hist_paused and hist_before))
+        if paused_b and b["state"] not in ("Paused", "Restarting"):
+            fail("system-state-not-Paused-while-paused", i,
+                 f"paused (flag {b['paused']}, control state {b['ctl'][2]}, by command history "
+                 f"{hist_paused and hist_before}) but System State {b['state']}")
         new_run = b["run_id"] is not None and b["run_id"] != a["run_id"]
         if new_run and (b["pt"] != 0 or b["rt"] != 0):
             fail("clock-nonzero-at-run-start", i, f"new run id, Process Time {b['pt']}, Run Time {b['rt']}")
@@ -77,6 +107,13 @@ def oracle(case: dict, recs: list[dict]) -> list[Failure]:
         st, started = a["state"], a["started"]
         if st == "Running" and b.get("state_at_clock") not in (None, "Running"):
             st = b.get("state_at_clock")
+        # ... and "Running" means running: not while the run is paused / on hold according to the run state
+        # itself (flags, control-state message, command history) at both ends of the tick, whatever the tag says
+        if st == "Running" and a["started"] and b["started"] and a["run_id"] == b["run_id"]:
+            if (a["paused"] or a["ctl"][2] or hist_before) and (b["paused"] or b["ctl"][2] or hist_paused):
+                st = "paused-run-reported-Running"
+            elif (a["holding"] or a["ctl"][1]) and (b["holding"] or b["ctl"][1]):
+                st = "held-run-reported-Running"
         if a["run_id"] is not None and a["run_id"] == b["run_id"] and inc >= 0:
             if b["pt"] < a["pt"] or b["rt"] < a["rt"]:
                 fail("clock-decreases-during-run", i, f"pt {a['pt']}->{b['pt']} rt {a['rt']}->{b['rt']}")
@@ -109,6 +146,7 @@ def gen_cases(ctx: Check) -> dict[str, list[dict]]:
     for _ in range(ctx.n(120, 3000)):
         mal.append(R.gen_session(rng, rng.randrange(8, 41), malformed=True, errors=True, sets=False))
     streams["errors"] = mal
+    streams["pause-hold-overlap"] = [R.gen_overlap(rng) for _ in range(ctx.n(120, 2500))]
     return streams
 
 
@@ -126,7 +164,9 @@ def run(ctx: Check) -> int:
                 "increment 0; advance 0.25 s increment 2 s) after Start and three ticks, for a flat method, a method "
                 "with a block, a method with timed Hold and Pause; random: adaptive sessions with generated methods "
                 "(blocks, watches, timed commands) and varied increments; errors: the same with injected hardware / "
-                "API errors, bad arguments. Non-trivial = some clock moved.")
+                "API errors, bad arguments; pause-hold-overlap: Pause (operator or error) and Hold (operator or timed "
+                "method Hold/Pause) overlapping in either order with either one ending first, varied ticks after "
+                "every step. Non-trivial = some clock moved.")
     all_mout, all_cases = [], []
     for name, cases in streams.items():
         _, mout = ctx.correspond(name, "RunState", cases, runner.lines, runner.impl,
@@ -159,7 +199,8 @@ def run(ctx: Check) -> int:
 
 def search(ctx: Check) -> None:
     from harness import runstate as R
-    for c in [WITNESS_HOLD, WITNESS_RESTART] + [R.gen_session(ctx.rng, 40, sets=False) for _ in range(ctx.n(300, 3000))]:
+    for c in [WITNESS_HOLD, WITNESS_RESTART] + [R.gen_overlap(ctx.rng) for _ in range(ctx.n(150, 1500))] + \
+            [R.gen_session(ctx.rng, 40, sets=False) for _ in range(ctx.n(300, 3000))]:
         _, _, recs = R.execute(c, "c07", dict(clocks=True))
         for f in oracle(c, recs):
             ctx.fail(f)
